@@ -321,6 +321,7 @@ class RecoveryLemma(Contract):
 
     prop = "C14"
     name = "RecoveryLemma"
+    lemma_files = (__import__("pathlib").Path(__file__).resolve().parent.parent / "lemmas" / "LeastSquares.lean",)
     target = None
     strength = "U"
     trusted = ("Lean 4.33 kernel and Mathlib; axioms propext, Classical.choice, Quot.sound",)
